@@ -5,6 +5,9 @@
            ok <summary> | err:eof | err:invalid | panic:<site> | alloc
            or `gray` when the outcome under budget B and under 16·B differ (an allocation request
            in the zone where the implementation's measured total may fall either side).
+    gguf-layers <hex>
+        -> what POST /api/create makes of an uploaded file: `err` | `loop` | `ok sizes=<n1,n2,…>` (one model layer per
+           GGUF found back to back in the file, with the bytes each layer gets)
 -/
 import OllamaVerif.Model.Gguf
 import Oracle.Util
@@ -27,6 +30,14 @@ def handle (toks : List String) : Option String :=
       let a := showSafe (decode bs maxA (some budget))
       let b := showSafe (decode bs maxA (some (16 * budget)))
       pure (if a == b then a else "gray")) rest
+  | "gguf-layers" :: rest =>
+    -- server/create.go ggufLayers on an uploaded file: `loop` (does not terminate), `err`, or the byte sizes of the layers
+    runTP (do
+      let bs ← hex
+      pure (match ggufLayers bs with
+        | none => "loop"
+        | some (.error _) => "err"
+        | some (.ok ls) => "ok sizes=" ++ joinWith "," (ls.map fun l => toString l.size))) rest
   | _ => none
 
 end Oracle.C10
